@@ -17,7 +17,7 @@ import sys
 import threading
 from typing import Any, Dict, List, Tuple
 
-from ..util import make_cfg, pmap, rng
+from ..util import Def, make_cfg, pmap, rng, split_defs
 
 MANIFEST = {
     "technique": "TLA+ specs of every cache container model-checked exhaustively with TLC (all capacity/TTL settings of a small grid); every transition of the state graphs replayed on the real classes (transition coverage); long random real histories and real-thread lock traces validated against the specs by TLC",
@@ -404,7 +404,7 @@ def replay_ring(case) -> List[Tuple[str, str]]:
 # ------------------------------------------------------------------------------------------------
 def _family(run, module, name, consts, invariants, properties, replayers, workers=4, timeout=600):
     cfg = make_cfg(consts, invariants, properties)
-    res = run.tlc(module, cfg, name=name, workers=workers, timeout_s=timeout)
+    res = run.tlc(module, cfg, name=name, workers=workers, timeout_s=timeout, defs=split_defs(consts))
     run.model_must_hold(res)
     trans = res.emitted
     if len(trans) + 1 != res.generated:
@@ -450,7 +450,7 @@ def check(run) -> None:
     # ---- LruBytes ----
     grid = [(0, 0), (1, 0), (2, 0), (0, 3), (2, 3), (3, 4), (1, 1)] if q else \
         [(e, b) for e in range(0, 4) for b in range(0, 6)]
-    costs = [0, 1, 2, 3] if q else [-1, 0, 1, 2, 3, 5]
+    costs = Def("{-1, 0, 1, 2, 3}") if q else Def("{-1, 0, 1, 2, 3, 5}")
     for (e, b) in grid:
         consts = {"Keys": K3, "Costs": costs, "Vals": [1, 2] if (e, b) in ((2, 3), (3, 4)) or not q else [1],
                   "MaxE": e, "MaxB": b}
